@@ -340,6 +340,11 @@ class Extractor:
             if nm in fn.params or vals:
                 return ("opaque",)
             return ("unknown", nm)
+        if (isinstance(e, ast.Call) and isinstance(e.func, ast.Name) and e.func.id in ("min", "max") and not e.keywords
+                and any(self.ev(fn, a_, ctx, max(depth - 1, 0)) == ("pyerr",) for a_ in e.args)):
+            # Python's line offset inside a multi-line statement, clamped (max(off, 0), min(off, lines_consumed - 1)): still
+            # an offset that moves the offending line and the reported value together, and it stays inside the statement
+            return ("pyerr",)
         if isinstance(e, ast.BinOp) and isinstance(e.op, (ast.Add, ast.Sub)):
             a, b = self.ev(fn, e.left, ctx, depth + 1), self.ev(fn, e.right, ctx, depth + 1)
             sign = 1 if isinstance(e.op, ast.Add) else -1
